@@ -193,7 +193,7 @@ fn main() {
             let vs = get(&m, "seed", 0u64);
             let sc = a5sim::scenario::generate(&g, a5sim::batch::scenario_seed(vs, get(&m, "index", 0u64)));
             let f = a5sim::replay::ReplayFile {
-                property: "C13".into(), engine: "H".into(), verif_seed: vs, profile: a5sim::replay::profile_name().into(),
+                property: "C13".into(), engine: "H".into(), verif_seed: vs, profile: a5sim::replay::profile_name(),
                 decisions: vec![Vec::new()], scenarios: vec![sc], violation: None, minimised: false, note: "generated".into(), origin: None,
             };
             a5sim::replay::save(&get(&m, "out", "/tmp/gen.json".to_string()), &f);
